@@ -136,7 +136,7 @@ def main(argv=None):
     cov = {
         'states': int(S.states),
         'transitions': int(S.calls),
-        'traces_validated_against_impl': int(S.states),
+        'traces_validated_against_impl': int(S.evaluations - S.out_of_domain),
         'evaluations': int(S.evaluations),
         'distinct_nontrivial': int(len(keys)),
         'rule': getattr(mod, 'RULE', ''),
